@@ -139,5 +139,7 @@ class MixedCategoricalAggregator(Aggregator):
             agg["uncertainty_epistemic"] = uncertainty_epistemic
 
     def _entropy(self, prob, axis=None, xp=np):
-        eps = np.finfo(prob.dtype).eps
+        # Hard (one-hot) predictions can have an integer or boolean dtype, which has no machine epsilon
+        dtype = prob.dtype if np.issubdtype(prob.dtype, np.floating) else np.float64
+        eps = np.finfo(dtype).eps
         return -xp.sum(prob * xp.log(prob + eps), axis=-1)
